@@ -108,6 +108,7 @@ class SPipe:
         self.keep_log = False
         self.cut_after = None  # deliver at most this many bytes in total, then EOF
         self.delivered = 0
+        self.epipe_pending = False
 
     def read(self, n=-1):
         self.s.yield_point("pipe.read")
@@ -127,6 +128,9 @@ class SPipe:
         if self.wclosed:
             raise ValueError("write to closed file")
         if self.rclosed:
+            # a real BufferedWriter keeps the unflushed bytes: every later flush() - including the one implied
+            # by close() - fails with EPIPE again
+            self.epipe_pending = True
             raise BrokenPipeError(32, "Broken pipe")
         data = bytes(data)
         self.written += len(data)
@@ -141,7 +145,7 @@ class SPipe:
     def flush(self):
         if self.wclosed:
             raise ValueError("flush of closed file")
-        if self.rclosed:
+        if self.rclosed and self.epipe_pending:
             raise BrokenPipeError(32, "Broken pipe")
 
 
@@ -161,8 +165,11 @@ class _WEnd:
         self.closed = False
 
     def close(self):
+        first = not self.closed
         self.closed = True
         self.p.wclosed = True
+        if first and self.p.epipe_pending:
+            raise BrokenPipeError(32, "Broken pipe")  # close() flushes; the file is closed nevertheless
 
 
 class SSocket:
